@@ -40,7 +40,7 @@ BLOCK_BLOCK_3 = {"blocks_in": _BIN2, "blocks_out": {"control": {"k2": ["p", "q"]
 
 
 def eq_menu(cols, roles, depth, hist):
-    items = menus.core_menu(cols, roles, depth, hist) + menus.cdata_items(cols, roles)
+    items = menus.core_menu(cols, roles, depth, hist)  # includes the record conversions
     if {"g", "k", "v"} <= set(cols):
         items.append({"op": "convert_records", "map": BLOCK_BLOCK_1})
     return items
